@@ -99,6 +99,11 @@ class DetLoop(base_events.BaseEventLoop):
         pass
 
 
+class CallbackFault(TypeError):
+    """What harness callbacks raise on purpose: a TypeError subclass, so that code which catches TypeError for its
+    own reasons (awaiting a non-awaitable, binding arguments) is exercised with a user exception of that type."""
+
+
 class Excluded(Exception):
     """An open known-finding trigger fired: the history is outside the claim while the finding is open."""
 
@@ -261,13 +266,13 @@ class World:
         self.extra_tasks.append(t)
         return t
 
-    def drain(self, rounds=200):
-        """Finish all work: release one gate at a time (blocked slow callbacks first, in creation order,
-        then workers in start order), settling after each, until nothing is left to release."""
+    def drain(self, rounds=200, newest_first=False):
+        """Finish all work: release one gate at a time (blocked slow callbacks first, in creation order - or newest
+        first -, then workers in start order), settling after each, until nothing is left to release."""
         self.settle()
         for _ in range(rounds):
             moved = False
-            for s in self.slow:
+            for s in (reversed(self.slow) if newest_first else self.slow):
                 if not s[2].done():
                     s[2].set_result(None)
                     moved = True
@@ -467,7 +472,7 @@ class World:
                 rec("end-done", i)
                 for r in raise_end:
                     if r == i:
-                        e = KeyError("end-callback fault %d" % i)
+                        e = CallbackFault("end-callback fault %d" % i)
                         w.injected.append(e)
                         raise e
 
@@ -477,7 +482,7 @@ class World:
                 rec("cancel-done", i)
                 for r in raise_cancel:
                     if r == i:
-                        e = KeyError("cancel-callback fault %d" % i)
+                        e = CallbackFault("cancel-callback fault %d" % i)
                         w.injected.append(e)
                         raise e
 
@@ -497,7 +502,7 @@ class World:
             rec("end-done", i)
             for r in raise_end:
                 if r == i:
-                    e = KeyError("end-callback fault %d" % i)
+                    e = CallbackFault("end-callback fault %d" % i)
                     w.injected.append(e)
                     raise e
 
@@ -515,7 +520,7 @@ class World:
             rec("cancel-done", i)
             for r in raise_cancel:
                 if r == i:
-                    e = KeyError("cancel-callback fault %d" % i)
+                    e = CallbackFault("cancel-callback fault %d" % i)
                     w.injected.append(e)
                     raise e
 
